@@ -9,7 +9,7 @@ FILES = ["litedram/frontend/dma.py"]
 LEVEL = "model_checking"
 TECHNIQUE = ("bounded model checking (z3 QF_BV) of the elaborated real LiteDRAMDMAReader/Writer (LiteX SyncFIFOs lowered) "
              "between free stream endpoints and a nondeterministic in-order native-port stub with the real controller's contract; "
-             "expected-value queues in the monitor; replay on migen.sim")
+             "(and LiteDRAMAXIPort with real channel handshakes); one marked item followed by queue position; replay on migen.sim")
 EXPLANATION = ("Reader: the stub answers each accepted read with a data word that encodes the command's address, after an "
                "arbitrary delay, as a single rdata.valid pulse that does not wait for rdata.ready (the real crossbar's behaviour); "
                "the k-th word on the source must carry the k-th accepted address with its end-of-stream mark, and a pulse that "
